@@ -124,6 +124,7 @@ func Run(rng *rand.Rand, o Opts) *Outcome {
 
 	inner := inmem.NewState("ns")
 	px := gp.New(inner, rand.New(rand.NewPCG(rng.Uint64(), 1)), o.MaxDelay)
+	px.ReplyDelay = true
 	px.TraceOps = true
 
 	var st state.State
